@@ -10,17 +10,17 @@ class Victim:
         self.derives, self.has_validation, self.generics, self.inst = set(derives), has_validation, generics, inst
         self.new_unchecked, self.pre, self.elem = new_unchecked, pre, elem
 
-    def text(self, vis="pub", wrap_outer=False):
+    def text(self, vis="pub", wrap_outer=False, decl_attr="", field_vis="", flag=None):
         attrs = list(self.attrs)
         if self.derives:
             attrs.append("derive(%s)" % ", ".join(sorted(self.derives)))
-        if self.new_unchecked:
+        if self.new_unchecked if flag is None else flag:
             attrs.append("new_unchecked")
         conc = self.inner.replace("X", "i32") if self.generics else self.inner
         ctor = "T::try_new(%s).unwrap()" % self.valid if self.has_validation else "T::new(%s)" % self.valid
-        body = ("use nutype::nutype;\n%s#[nutype(%s)]\n%s struct T%s(%s);\n"
+        body = ("use nutype::nutype;\n%s#[nutype(%s)]\n%s%s struct T%s(%s%s);\n"
                 "pub type Inner = %s;\npub type TT = T%s;\n"
-                "pub fn make() -> TT { %s }\npub fn raw() -> Inner { %s }\n" % (self.pre, ", ".join(attrs), vis, self.generics, self.inner, conc, self.inst, ctor, self.raw))
+                "pub fn make() -> TT { %s }\npub fn raw() -> Inner { %s }\n" % (self.pre, ", ".join(attrs), decl_attr, vis, self.generics, field_vis, self.inner, conc, self.inst, ctor, self.raw))
         return body
 
 
@@ -128,9 +128,31 @@ def build(tier, seed):
                 ca = Case("a%04d" % n, body_a, "MUST_REJECT", "attack:%s" % aid, note="%s/%s" % (v.key, vis), group=v.key)
                 cc = Case("c%04d" % n, body_c, "MUST_ACCEPT", "control:%s" % aid, control_of=ca.id, note="%s/%s" % (v.key, vis), group=v.key)
                 cases += [ca, cc]
+    # declaration-level attacks: an attribute or field qualifier on the declaration that would hand safe code an unguarded constructor / the field
+    wrap = "pub mod victim {\n%s}\npub mod attacker {\n    use super::victim::*;\n    pub fn f() { let t = make(); let x = raw(); %s }\n}"
+    decl_attacks = []
+    for dv in ("derive", "::core::prelude::v1::derive", "core::prelude::v1::derive", "::std::prelude::v1::derive", "std::prelude::rust_2021::derive"):
+        decl_attacks.append(("foreign-derive-Default:" + dv, "#[%s(Default)]\n" % dv, "", "let _v: TT = ::core::default::Default::default(); let _ = (t, x);", lambda v: "Default" not in v.derives))
+        decl_attacks.append(("foreign-derive-Deserialize:" + dv, "#[%s(::serde::Deserialize)]\n" % dv, "", "fn need<D: for<'de> ::serde::Deserialize<'de>>() {} need::<TT>(); let _ = (t, x);", lambda v: True))
+        decl_attacks.append(("foreign-derive-Arbitrary:" + dv, "#[%s(::arbitrary::Arbitrary)]\n" % dv, "", "fn need<D: for<'a> ::arbitrary::Arbitrary<'a>>() {} need::<TT>(); let _ = (t, x);", lambda v: True))
+    decl_attacks.append(("pub-field", "", "pub ", "let _v = T(x); let _ = t;", lambda v: True))
+    decl_attacks.append(("pub-field-read-write", "", "pub ", "let mut t = t; t.0 = x;", lambda v: True))
+    decl_attacks.append(("pub(crate)-field", "", "pub(crate) ", "let _v = T(x); let _ = t;", lambda v: True))
+    decl_attacks.append(("pub(super)-field", "", "pub(super) ", "let mut t = t; t.0 = x;", lambda v: True))
+    for v in victims(tier):
+        if v.key not in ("int-validated-none", "string-validated-none", "vec-validated-all", "generic-vec-validated", "float-plain-all", "int-unchecked"):
+            continue
+        for (aid, dattr, fvis, attack, applies) in decl_attacks:
+            if not applies(v):
+                continue
+            n += 1
+            ca = Case("a%04d" % n, wrap % (v.text("pub", decl_attr=dattr, field_vis=fvis), attack), "MUST_REJECT", "attack:declaration-%s" % aid, note="%s/pub" % v.key, group=v.key)
+            cc = Case("c%04d" % n, wrap % (v.text("pub", decl_attr="/// documented\n#[doc = \"more\"]\n"), "let _ = (t, x);"), "MUST_ACCEPT", "control:declaration-%s" % aid, control_of=ca.id,
+                      note="%s/pub" % v.key, group=v.key)
+            cases += [ca, cc]
     # naming attacks: a private / restricted newtype and its generated error types from outside the permitted scope
     for (vis, label) in (("", "private"), ("pub(super)", "pub(super)"), ("pub(in crate::%s::outer)", "pub(in path)")):
-        for what in ("T", "TError", "TParseError"):
+        for what in ("T", "TError", "TParseError", "__nutype_T__::T", "__nutype_T__::TError", "__nutype_T__::TParseError"):
             n += 1
             cid_a, cid_c = "a%04d" % n, "c%04d" % n
             vis_a = vis % cid_a if "%s" in vis else vis
@@ -138,13 +160,32 @@ def build(tier, seed):
             decl = "use nutype::nutype;\n        #[nutype(validate(greater = 0), derive(Debug, FromStr))]\n        %s struct T(i32);\n"
             # inside `inner` the type is nameable for every declared visibility; `sibling` is inside `outer` (allowed for pub(super)/pub(in outer)), `outside` never is
             tmpl = ("pub mod outer {\n    pub mod inner {\n        %s        pub fn ok(_v: Option<%s>) {}\n    }\n    %s\n}\n%s")
+            hidden = what.startswith("__")
+            plain = what.split("::")[-1]
             if label == "private":
                 attack_site = "pub mod sibling { pub fn f(_v: Option<super::inner::%s>) {} }" % what
-                body_a = tmpl % (decl % vis_a, what, attack_site, "")
-                body_c = tmpl % (decl % vis_c, what, "", "")
+                body_a = tmpl % (decl % vis_a, plain, attack_site, "")
+                body_c = tmpl % (decl % vis_c, plain, "", "")
             else:
-                body_a = tmpl % (decl % vis_a, what, "", "pub mod outside { pub fn f(_v: Option<super::outer::inner::%s>) {} }" % what)
-                body_c = tmpl % (decl % vis_c, what, "pub mod sibling { pub fn f(_v: Option<super::inner::%s>) {} }" % what, "")
+                body_a = tmpl % (decl % vis_a, plain, "", "pub mod outside { pub fn f(_v: Option<super::outer::inner::%s>) {} }" % what)
+                body_c = tmpl % (decl % vis_c, plain, "pub mod sibling { pub fn f(_v: Option<super::inner::%s>) {} }" % plain, "")
             cases.append(Case(cid_a, body_a, "MUST_REJECT", "attack:name-%s-from-outside:%s" % (what, label), note="naming/" + label, group="naming"))
             cases.append(Case(cid_c, body_c, "MUST_ACCEPT", "control:name-%s-from-outside:%s" % (what, label), control_of=cid_a, note="naming/" + label, group="naming"))
+    return cases
+
+
+def build_without_feature(tier, seed):
+    """Cases for a crate that enables every nutype feature EXCEPT `new_unchecked`: the per-type flag alone must not produce the function."""
+    cases = []
+    n = 0
+    wrap = "pub mod victim {\n%s}\npub mod attacker {\n    use super::victim::*;\n    pub fn f() { let t = make(); let x = raw(); %s }\n}"
+    for v in victims(tier):
+        ctor_ok = "let _v = TT::try_new(x); let _ = t;" if v.has_validation else "let _v = TT::new(x); let _ = t;"
+        n += 1
+        if v.new_unchecked:
+            ca = Case("a%04d" % n, wrap % (v.text("pub", flag=True), "let _v = unsafe { TT::new_unchecked(x) }; let _ = t;"), "MUST_REJECT", "attack:new_unchecked-flag-without-crate-feature", note="%s/pub" % v.key, group=v.key)
+        else:
+            ca = Case("a%04d" % n, wrap % (v.text("pub", flag=False), "let _v = unsafe { TT::new_unchecked(x) }; let _ = t;"), "MUST_REJECT", "attack:new_unchecked-without-flag-or-feature", note="%s/pub" % v.key, group=v.key)
+        cc = Case("c%04d" % n, wrap % (v.text("pub", flag=False), ctor_ok), "MUST_ACCEPT", "control:" + ca.rule.split(":", 1)[1], control_of=ca.id, note="%s/pub" % v.key, group=v.key)
+        cases += [ca, cc]
     return cases
